@@ -5,12 +5,14 @@ import subprocess
 from common import build_harness, log
 
 
-def run_ops(reqs, timeout=600):
+def run_ops(reqs, timeout=None):
     """Run ops through the real code.  Returns a list of response dicts aligned with reqs.
     A fatal (unrecoverable) crash of the harness process (e.g. Go stack overflow) is
     attributed to the op that was running: {"fatal": "<tail of stderr>"}; the batch then
     continues in a fresh process."""
     hbin, _ = build_harness()
+    if timeout is None:
+        timeout = max(900, 3 * len(reqs))        # generous: a verdict must not depend on how busy the machine is
     out = [None] * len(reqs)
     for i, r in enumerate(reqs):
         r["id"] = str(i)
@@ -45,6 +47,29 @@ def run_ops(reqs, timeout=600):
                     out[j] = {"fatal": "harness-died", "stderr": stderr[-300:]}
             break
         kind = "timeout" if stderr == "timeout" else ("stack" if "stack overflow" in stderr or "goroutine stack exceeds" in stderr else "fatal")
+        if kind == "timeout":
+            # the BATCH ran out of time (a loaded machine, a long batch): that says nothing about the op that happened to be
+            # running.  It is a hang only if it does not finish on its own either.
+            try:
+                q = subprocess.run([hbin], input=json.dumps(reqs[begun]) + "\n", capture_output=True, text=True, timeout=300,
+                                   env={"GOMEMLIMIT": "8GiB", "GOTRACEBACK": "single"})
+                alone = None
+                for line in q.stdout.split("\n"):
+                    try:
+                        m = json.loads(line)
+                    except ValueError:
+                        continue
+                    if "id" in m:
+                        alone = m
+                if alone is not None and q.returncode == 0:
+                    out[begun] = alone
+                    start = begun + 1
+                    continue
+                if q.returncode != 0:
+                    kind = "stack" if "stack overflow" in q.stderr or "goroutine stack exceeds" in q.stderr else "fatal"
+                    stderr = q.stderr
+            except subprocess.TimeoutExpired:
+                pass
         out[begun] = {"fatal": kind, "stderr": stderr[:300]}
         start = begun + 1
     return out
